@@ -49,13 +49,27 @@ def judge(item, out):
     x = lmcheck.lm_env(L)
     LM = lin.lin_c(L, x)
     g = lin.lin_obj(L, x)
-    for name, arg in item['ops']:
+    def lookup(name, arg):
         r = out.get(op_key(name, arg))
         if r is None:
             # serde_json orders keys; look the op up tolerant of key order
             for k, v in out.items():
                 if k.startswith(name + ':') and json.loads(k[len(name) + 1:]) == arg:
                     r = v
+        return r
+
+    def outcome(r):
+        if r is None:
+            return None
+        return 'ok' if r.get('ok') else ('panic' if r.get('panic') else ('hang' if r.get('hang') else 'err:%s' % r.get('kind')))
+
+    # what the same entry point answers with default options: an error verdict (or a hang) that is the same with and
+    # without options is not something a limit or tolerance turned the answer into - it is C05's subject (and recorded
+    # there); C15 reports a wrong verdict only where the options changed it
+    base = outcome(lookup('milp_with', {'gap': None, 'limit_ns': None}))
+    res['deferred_to_C05'] = 0
+    for name, arg in item['ops']:
+        r = lookup(name, arg)
         if r is None:
             res['status'] = 'fault'
             res['fault'] = 'missing op result %s %s' % (name, arg)
@@ -66,6 +80,10 @@ def judge(item, out):
         res['outcomes'][kind] = res['outcomes'].get(kind, 0) + 1
         if r.get('panic'):
             res['fails'].append(dict(tag, ob='panic', point=None))
+            continue
+        is_default = gap is None and lim is None
+        if not r.get('ok') and not r.get('panic') and gap not in INVALID and r.get('kind') != 'LimitReached' and (is_default or outcome(r) == base):
+            res['deferred_to_C05'] += 1
             continue
         if r.get('hang'):
             res['fails'].append(dict(tag, ob='solver-hang', engine='microlp', has_free_variable=lmcheck.has_free(L), point=None))
@@ -159,16 +177,19 @@ def knapsacks(seed_, n):
         if r.random() < 0.4:
             rows.append(([r.choice([1, -1, 0, 2]) for _ in range(nv)], r.choice(['<=', '>=', '=']), r.choice([0, 1, 3])))
         obj = [r.choice([4, 6, 9, 2.5, 11, 5, 1]) for _ in range(nv)]
-        out.append(gen.lm_spec(kinds, rows, obj, r.choice(['max', 'max', 'min']), off=r.choice([0, 0, 1.5])))
+        d = r.choice(['max', 'max', 'min', 'max', 'min', 'solve'])
+        if d == 'solve':
+            obj = [0] * nv   # satisfiability model: the limit / status mapping has its own path there
+        out.append(gen.lm_spec(kinds, rows, obj, d, off=r.choice([0, 0, 1.5])))
     return out
 
 
 def family(t, sd):
     if t == 'quick':
-        specs = [s for s in gen.l_seeded(71, 4000, offsets=True) if any(v[1]['k'] in ('Boolean', 'Int') for v in s['vars'])][:1200]
+        specs = [s for s in gen.l_seeded(71, 4000, offsets=True, satisfy=True) if any(v[1]['k'] in ('Boolean', 'Int') for v in s['vars'])][:1200]
         specs += knapsacks(72, 300)
     else:
-        specs = [s for s in gen.l_seeded(700 + sd, 30000, offsets=True) if any(v[1]['k'] in ('Boolean', 'Int') for v in s['vars'])]
+        specs = [s for s in gen.l_seeded(700 + sd, 30000, offsets=True, satisfy=True) if any(v[1]['k'] in ('Boolean', 'Int') for v in s['vars'])]
         specs += knapsacks(720 + sd, 3000)
     lim = os.environ.get('VERIF_LIMIT')
     if lim:
@@ -253,12 +274,13 @@ def main(prop='C15'):
             'programs': len(items), 'solver_calls': sum(len(it['ops']) for it in items), 'outcomes': outcomes,
             'disagreements_checked': stats['queries'], 'queries': stats,
             'obligations_per_program': ['invalid gap (-1, NaN, inf) => Err', 'Ok => returned point feasible (exact evaluation, 1e-6)', 'status Optimal => LM(x) & objective better than value - gap*|value| - tol unsat',
-                                        'Err(Infeasible) => LM unsat', 'Err(Unbounded) => feasible and an improving ray exists', 'other errors only when a limit was set'],
+                                        'Err(Infeasible) => LM unsat / Err(Unbounded) => feasible and an improving ray exists / other error kinds only when a limit was set - judged where the options CHANGED the verdict relative to the default-options run of the same model (a verdict that is the same without options is C05\'s subject)'],
+            'error_outcomes_same_as_default_run_left_to_C05': sum(r.get('deferred_to_C05', 0) for r in results),
             'counterexamples_found': len(todo), 'counterexamples_confirmed_against_real_code': confirmed, 'timing_dependent_not_reproduced': flaky,
             'must_fail_twins': {'tried': tw[0], 'detected': tw[1]},
             'samples': [{'lm': it['lm'], 'ops': it['ops'][:3]} for it in items[:: max(1, len(items) // 3)][:3]],
             'exhaustive': False,
-            'family': 'seeded MILP members of L(3,3) + 4..7-variable knapsack-like MILPs x limits {0,1ns,1us,1ms,none} x gaps {none,0,1e-6,0.5,10,-1,NaN,inf,-0.0}',
+            'family': 'seeded MILP members of L(3,3) + 4..7-variable knapsack-like MILPs (min, max and satisfy) x limits {0,1ns,1us,1ms,none} x gaps {none,0,1e-6,0.5,10,-1,NaN,inf,-0.0}',
             'functions_encoded': ['solve_milp_lp_problem_with', 'builder::Microlp::{with_mip_gap,with_time_limit} + Solver::solve'],
             'solver': 'z3 %s' % z3.get_version_string(), 'driver_build_s': round(build_s, 1), 'check_s': round(time.time() - t0, 1),
         },
